@@ -82,7 +82,7 @@ func init() {
 				continue
 			}
 			if d := oracle.Equal(r, base, tol); d != "" {
-				if (hasFeat(feats, "agg:topk") || hasFeat(feats, "agg:bottomk")) && r.Err == nil && base.Err == nil && TopkAmbiguous(c, expr, plain) {
+				if (hasFeat(feats, "agg:topk") || hasFeat(feats, "agg:bottomk")) && TopkAmbiguous(c, expr, plain) {
 					feats = append(feats, "topk-tie-not-judged")
 					continue
 				}
